@@ -129,7 +129,7 @@ PROPS['C01'] = dict(
          'seven lost, then its Adler-32-equivalent partner under the same number; oracle: every server tun write is a packet '
          'the sender completed or gave up; non-trivial iff >= 1 such wrap happened. One case in eight instead: real client + real server on a router that only drops, chosen by what it sees: calibration packet, one-fragment packet, '
          'then every answer is dropped while N in {7,15,6,8,3} one-fragment packets and the first fragment of a crafted two-fragment packet pass; oracle: every client '
-         'tun write was offered on the server\'s tun; non-trivial iff the crafted packet\'s first fragment was seen and dropped. One such case in three is the merge variant (queries held back and released late, the server gives a packet up whose first fragment the client holds, seven packets lost, then its Adler-equivalent partner); when the partner\'s first fragment is lost too the case is known finding K3 / K4 (excluded by construction, counted). distinct = hash of the choice tape',
+         'tun write was offered on the server\'s tun; non-trivial iff the crafted packet\'s first fragment was seen and dropped. One such case in three is the merge variant (queries held back and released late, the server gives a packet up whose first fragment the client holds, seven packets lost, then its Adler-equivalent partner); when the partner\'s first fragment is lost too the case is known finding K3 / K4 (excluded by construction, counted). distinct = hash of the choice tape Round 6: one merge-game start in three of the scripted sender is the late-fragment game (no loss: a held-up copy of a last fragment arrives eight packets later between the fragments of the Adler-equivalent partner) -- open finding K5, excluded by construction and counted; one adversarial-network case in four is the late-answer case (the router duplicates the answer carrying a last fragment and releases the copy 6/7/8/15 packets later right behind a first fragment; non-trivial iff released after exactly 7 mod 8 packets).',
     engine_text='rapidcheck over choice tapes; simnet hosting real iodined + real iodine clients; ASan+UBSan; crafted adversarial packets (zlib stream of another packet at the second fragment\'s offset inside an incompressible packet)',
     bounds='<= 3 clients, <= 30 offers, packets <= 6000+24 bytes, <= 40 virtual s of faults, delays <= 3 s',
     trusted_base=TB_SIM,
@@ -145,7 +145,7 @@ PROPS['C02'] = dict(
          '(b) fault phase of 1..40 virtual s (drop/dup/delay/black-out, optionally one direction), 15 s settling on a clean '
          'path, then 12 fresh packets each way of which the last 4 are judged: each delivered at least once, in order, within 10 s; neither program may exit; '
          'in one such case of three an application keeps offering 2..8 packets per second on the client tun device, the server tun device or both throughout (classes busy-*). '
-         'non-trivial iff (a) >=1 multi-fragment delivery and >=1 idle gap > 4.5 s, (b) faults hit and >=6 deliveries',
+         'non-trivial iff (a) >=1 multi-fragment delivery and >=1 idle gap > 4.5 s, (b) faults hit and >=6 deliveries. One case in twenty-four instead: real server + scripted conforming sender (history generator of the second shape of C01); a packet whose first fragment replaced the stored first fragment of a packet given up earlier (same 3-bit sequence number, seven packets lost in between) and whose fragments were all sent on a clean path must be written to the server\'s tun device; non-trivial iff >= 1 such packet was completed.',
     engine_text='rapidcheck over choice tapes; simnet (virtual clock owned by the harness turns liveness into bounded-horizon safety)',
     bounds='<= 40 offers, <= 40 virtual s of faults; time bounds are in virtual time Round 5: bulk upload of 62..75 s before the paced offers in half of the upstream one-way cases; boundary-size packets (last fragment of 1, 2, F-1, F bytes). One case in twelve: adversarial-network history (C01 third shape) + clean suffix of 12 packets each way, last 4 judged.',
     trusted_base=TB_SIM,
